@@ -1,5 +1,6 @@
 import Netconan.Proofs.Secrets
 import Netconan.Proofs.Pseudonym
+import Netconan.Proofs.Numeric
 /-!
 # C08 – Secret pseudonyms are consistent and collision-free within a run
 
@@ -87,8 +88,40 @@ theorem cleartext_shares_plaintext_key (d p : List Char) (lk : Lookup) (hkey : l
 back), so secrets allocated at different table sizes get different base pseudonyms – for every `N`. -/
 theorem distinct_sizes_distinct_pseudonyms (a b : Nat) (h : pseudonym a = pseudonym b) : a = b := pseudonym_inj h
 
-/-- distinct table sizes give distinct base pseudonyms (kernel-checked for the first sizes;
-a test, not the unbounded claim, which needs injectivity of `decDigits`) -/
+theorem pseudonym_ascii (n : Nat) : ∀ c ∈ pseudonym n, c.toNat < 128 := by
+  intro c hc
+  simp only [pseudonym, List.mem_append] at hc
+  rcases hc with hc | hc
+  · revert c; unfold pseudonymPrefix; decide
+  · have := decDigitsAux_digits (n + 1) n [] (by simp) c hc
+    simp only [isDigit, Bool.and_eq_true, decide_eq_true_eq] at this
+    have h9 : c ≤ '9' := this.2
+    have : c.toNat ≤ ('9' : Char).toNat := h9
+    have e : ('9' : Char).toNat = 57 := by decide
+    omega
+
+theorem pseudonym_head (n : Nat) : ∀ c, (pseudonym n).head? = some c → c.toNat ≠ 0 := by
+  intro c hc
+  simp [pseudonym, pseudonymPrefix] at hc
+  subst hc; decide
+
+/-- **The replacement actually written is collision-free too**, in every format the model renders
+itself (Cisco type 7, numeric, hex, plain text): secrets allocated at different table sizes get
+different replacements, because each of these re-encodings can be decoded back to the pseudonym. -/
+theorem distinct_sizes_distinct_replacements (fmt : Fmt) (hf : fmt = .type7 ∨ fmt = .numeric ∨ fmt = .hex ∨ fmt = .text)
+    (a b n m : Nat) (h : renderAs x salt fmt n (pseudonym a) = renderAs x salt fmt m (pseudonym b)) : a = b := by
+  have ha := pseudonym_ascii a
+  have hb := pseudonym_ascii b
+  have ha' : ∀ c ∈ pseudonym a, c.toNat < 256 := fun c hc => by have := ha c hc; omega
+  have hb' : ∀ c ∈ pseudonym b, c.toNat < 256 := fun c hc => by have := hb c hc; omega
+  apply pseudonym_inj
+  rcases hf with rfl | rfl | rfl | rfl <;> simp only [renderAs, Except.ok.injEq] at h
+  · exact type7_injective _ _ ha hb h
+  · exact numericOf_injective _ _ ha' hb' (pseudonym_head a) (pseudonym_head b) h
+  · exact hexOf_injective _ _ ha' hb' h
+  · exact h
+
+/-- kernel-evaluated (a test): distinct table sizes give distinct base pseudonyms for the first sizes -/
 example : (List.range 40).all (fun i => (List.range 40).all (fun j => i == j || pseudonym i != pseudonym j)) = true := by
   decide +kernel
 
